@@ -183,7 +183,9 @@ def c10_case(args):
     known = Known("C10")
     fcp = parse(SCHEMA)
     cats = CATEGORY_SETS[setname]
-    feats = {"desc": f"{setname}/records{nrecords}" + ("/after-an-accepted-generation" if history else ""), "checks": cats}
+    feats = {"desc": f"{setname}/records{nrecords}" + ({0: "", 1: "/after-an-accepted-generation",
+                                                        2: "/after-a-generation-by-another-manager"}[int(history)]),
+             "checks": cats}
     RecPath.pre = {}
     _LEN.clear()
     space = AtomSpace()
@@ -207,7 +209,15 @@ def c10_case(args):
         fs = RecFS()
         RecPath.fs = fs
         gm = codegen.GeneratorManager(make_general_verifier())
-        if history:
+        if history == 2:
+            # an earlier accepted generation through ANOTHER manager/verifier pair of the same process (what a
+            # long-lived tool or two CLI-style calls in one interpreter do)
+            fcp_vstub.CONFIG.update({"checks": [], "records": [], "verdict": verdict, "calls": []})
+            first = codegen.GeneratorManager(make_general_verifier()).generate("vstub", None, None, fcp, "outdir")
+            if not (hasattr(first, "is_ok") and first.is_ok()):
+                raise EngineLimit(f"history prefix was not accepted: {first!r}")
+            fs.ops.clear()
+        elif history:
             # an earlier, accepted generation of the same schema object through the same manager (a plug-in
             # without checks): the later call must still consult the checks registered for it
             fcp_vstub.CONFIG.update({"checks": [], "records": [], "verdict": verdict, "calls": []})
@@ -406,9 +416,10 @@ def run_c10(tier: str) -> int:
     cases = []
     for s in CATEGORY_SETS:
         for n in ((0, 2) if tier == "quick" else (0, 1, 2, 3)):
-            cases.append(("sym", s, n, False, tier))
+            cases.append(("sym", s, n, 0, tier))
     for s in ("one_per_category", "late_only"):
-        cases.append(("sym", s, 1, True, tier))
+        cases.append(("sym", s, 1, 1, tier))
+        cases.append(("sym", s, 1, 2, tier))
     cases += [("real", g, t, e, tier) for g, t, e in REAL_CASES]
     rep.bounds = {
         "check_sets": CATEGORY_SETS,
